@@ -117,6 +117,9 @@ struct Side {
     samples: Vec<(SocketAddr, Vec<u8>)>,
     routed: u64,
     ghost: bool,
+    /// a datagram was handed to this connection only because it ends in a reset token that ANOTHER, already forgotten
+    /// connection of the peer endpoint had issued too (same CID value, hence same token): what happened
+    shared_token_hit: Option<String>,
 }
 
 #[derive(Clone, Copy, Debug, PartialEq, Eq)]
@@ -177,6 +180,10 @@ struct St {
     /// probes against forgotten connections: (due, from, to, bytes, reset token they end in)
     probe_q: Vec<(u64, SocketAddr, SocketAddr, Vec<u8>, Option<[u8; 16]>)>,
     views_reported: BTreeSet<String>,
+    /// stateless resets the endpoints generated: (node, step, size, DCID of the inciting datagram, inciting datagram genuine?)
+    resets_made: Vec<(usize, u64, usize, Vec<u8>, bool)>,
+    /// (issuing node, reset token) -> CID value, from the NEW_CONNECTION_ID frames of the transmit logs
+    token_cid: HashMap<(usize, [u8; 16]), Vec<u8>>,
     cid_dbg: HashMap<(usize, usize), String>,
     probes_skipped: u64,
     server_idle_ms: u64,
@@ -394,6 +401,7 @@ impl St {
             samples: Vec::new(),
             routed: 0,
             ghost,
+            shared_token_hit: None,
         });
         let i = self.sides.len() - 1;
         self.occ.insert((node, ch), i);
@@ -429,6 +437,7 @@ impl St {
                         self.rotations += 1;
                     }
                 }
+                self.token_cid.insert((node, tok), id.clone());
                 self.sides[sidx].tokens_issued.insert(tok);
             }
         }
@@ -504,6 +513,14 @@ impl St {
                     sim.fail("routing-wrong-connection", format!("node {} step {}: a {}-byte datagram from {} with DCID {} was buffered for a pending connection attempt, but no attempt the application holds has that DCID (held: {:?})", rec.node, rec.step, rec.data.len(), rec.from, dc.as_ref().map_or("?".into(), |d| hexs(d)), self.pending.iter().map(|p| hexs(&p.key)).collect::<Vec<_>>()));
                 }
             }
+            if std::env::var("VERIF_MULTI_ROUTES").is_ok() && matches!(rec.to, Routed::Response(_)) {
+                eprintln!("RESPONSE step {} node {} to {} inciting len {} genuine {} first {:02x} dcid {} -> {:?}", rec.step, rec.node, rec.from, rec.data.len(), rec.genuine, rec.data.first().copied().unwrap_or(0), dc.as_ref().map_or("?".into(), |d| hexs(d)), rec.to);
+            }
+            if let Routed::Response(size) = rec.to {
+                if rec.data.first().is_some_and(|b| b & 0x80 == 0) {
+                    self.resets_made.push((rec.node, rec.step, size, dc.clone().unwrap_or_default(), rec.genuine));
+                }
+            }
             let Routed::Conn(ch) = rec.to else { continue };
             let occ = self.occ.get(&(rec.node, ch)).copied();
             // forgotten: the slot is vacant, or its occupant had its Drained processed in an earlier step
@@ -522,6 +539,36 @@ impl St {
                     "routing-wrong-connection",
                     format!("node {} step {}: a {}-byte datagram from {} with DCID {} (last issued by connection #{owner:?}) was handed to ConnectionHandle({ch}) = connection #{}, which never issued that CID, does not own the initial DCID / address tuple and was not given the trailing bytes as a reset token", rec.node, rec.step, rec.data.len(), rec.from, dc.as_ref().map_or("?".into(), |d| hexs(d)), self.sides[sidx].uid),
                 );
+            }
+            if std::env::var("VERIF_MULTI_ROUTES").is_ok_and(|u| u.parse() == Ok(self.sides[sidx].uid)) {
+                eprintln!("ROUTE step {} node {} from {} len {} genuine {} dcid {} tail {}", rec.step, rec.node, rec.from, rec.data.len(), rec.genuine, dc.as_ref().map_or("?".into(), |d| hexs(d)), hexs(&rec.data[rec.data.len().saturating_sub(16)..]));
+            }
+            // stateless-reset routing: was the token also issued by an earlier connection of the peer endpoint?
+            if rec.data.len() >= 16 && !dc.as_ref().is_some_and(|d| !d.is_empty() && self.sides[sidx].issued.contains(d)) {
+                let mut t = [0u8; 16];
+                t.copy_from_slice(&rec.data[rec.data.len() - 16..]);
+                let me = self.sides[sidx].uid;
+                // which CID value of the peer endpoint the token belongs to (announced pairs), and who else was given that value
+                // (announced or only generated for it by the endpoint)
+                let peer_node = self.lconns[me - 1].cnode;
+                let peer_node = if rec.node == SERVER { peer_node } else { SERVER };
+                let cid = self.token_cid.get(&(peer_node, t)).cloned();
+                let earlier = self.sides.iter().find(|o| o.uid != me && o.node == peer_node && (o.tokens_issued.contains(&t) || cid.as_ref().is_some_and(|c| o.issued.contains(c))));
+                // did the peer ENDPOINT reveal that token itself: a stateless reset in answer to a datagram whose DCID was this
+                // CID value at a time when no connection held it?
+                let made = cid.as_ref().and_then(|c| self.resets_made.iter().rev().find(|(n, step, _, d, _)| *n == peer_node && d == c && *step < rec.step).cloned());
+                if let Some((n, step, size, d, genuine)) = made {
+                    let what = format!(
+                        "a {}-byte datagram from {} ending in reset token {} was handed to it at step {}; the token belongs to CID value {} of the peer endpoint, which node {n} had revealed at step {step} by answering a {} with that (then unassigned) DCID with a {size}-byte stateless reset{}",
+                        rec.data.len(), rec.from, hexs(&t), rec.step, hexs(&d),
+                        if genuine { "late or duplicated genuine datagram" } else { "datagram sent by the harness (old datagram of a forgotten connection / probe)" },
+                        earlier.map_or(String::new(), |o| format!("; connection #{} (forgotten at step {:?}) had held that CID value before", o.uid, o.forgot_step))
+                    );
+                    if std::env::var("VERIF_SIM_VERBOSE").is_ok() {
+                        eprintln!("SHARED-TOKEN #{me}: {what}");
+                    }
+                    self.sides[sidx].shared_token_hit = Some(what);
+                }
             }
             let s = &mut self.sides[sidx];
             s.routed += 1;
@@ -594,7 +641,12 @@ impl St {
                     eprintln!("  workload: client send {:?} recv {:?}; server send {:?} recv {:?}", l.w.sides[0].send, l.w.sides[0].recv.iter().map(|(k, v)| (*k, v.bytes, v.fin)).collect::<Vec<_>>(), l.w.sides[1].send, l.w.sides[1].recv.iter().map(|(k, v)| (*k, v.bytes, v.fin)).collect::<Vec<_>>());
                     eprintln!("  endpoint view node {node}: {:?}", sim.nodes[node].ep.verif_view());
                 }
-                if protected && reason.contains("CONNECTION_ID_LIMIT_ERROR") {
+                if protected && reason.contains("Reset") && self.sides[i].shared_token_hit.is_some() {
+                    // RFC 9000 10.3.2: with tokens computed from (static key, CID) "the combination of connection ID and static
+                    // key MUST NOT be used for another connection"; quinn reuses CID values (recorded finding, short CIDs)
+                    let what = self.sides[i].shared_token_hit.clone().unwrap();
+                    sim.fail("routing-reset-token-reused-with-cid-value", format!("connection #{uid} (node {node} handle {ch}) was reset by a stateless reset whose token the peer endpoint had revealed before the CID value was given to it: {what}"));
+                } else if protected && reason.contains("CONNECTION_ID_LIMIT_ERROR") {
                     // RFC 9000 5.1.1: "An endpoint MUST NOT provide more connection IDs than the peer's limit": between
                     // honest peers this error means the issuer over-issued (recorded finding: a CID-lifetime expiry and a
                     // RETIRE_CONNECTION_ID handled in one batch both claim the same free slot)
@@ -748,6 +800,13 @@ impl St {
                             self.sides[sidx].initial_keys.insert(odc);
                             self.sides[sidx].initial_keys.insert(p.key.clone());
                             self.lconns[uid - 1].ssides.push(sidx);
+                            if self.lconns[uid - 1].closed {
+                                // the application has closed this connection already (possibly a server connection made from
+                                // another copy of the client's Initial): it closes every further one at once
+                                let code = VarInt::from_u32(1000 + uid as u32);
+                                let now = sim.t();
+                                sim.conn(SERVER, ch.0).close(now, code, bytes::Bytes::from(format!("bye-{uid}")));
+                            }
                         }
                         Err(e) => {
                             let cause = format!("{:?}", e.cause);
@@ -920,6 +979,14 @@ impl St {
                 continue;
             }
             let (_, from, to, data, tok) = self.probe_q.remove(i);
+            // an old datagram may itself be a stateless reset (its tail is then a token): same rule
+            let tok = tok.or_else(|| {
+                (data.len() >= 16).then(|| {
+                    let mut t = [0u8; 16];
+                    t.copy_from_slice(&data[data.len() - 16..]);
+                    t
+                })
+            });
             if tok.is_some_and(|t| live.contains(&t)) {
                 self.probes_skipped += 1;
                 continue;
@@ -1158,6 +1225,8 @@ pub fn multi(seed: u64, out: &mut Outcome) {
         pending: Vec::new(),
         probe_q: Vec::new(),
         views_reported: BTreeSet::new(),
+        resets_made: Vec::new(),
+        token_cid: HashMap::new(),
         cid_dbg: HashMap::new(),
         probes_skipped: 0,
         server_idle_ms,
